@@ -29,6 +29,13 @@ struct Ctx {
   std::map<std::string, std::string> fmod;
 };
 
+// a long-lived statement-at-a-time parser of one context (what an interactive host keeps open): it is fed exactly one complete statement per step
+struct OneShotReader : bloc::Parser::StreamReader {
+  std::string pending;
+  int read(bloc::Parser*, char* buf, int max_size) override { if (pending.empty()) return 0; int n = (int)std::min<size_t>(pending.size(), (size_t)max_size); memcpy(buf, pending.data(), (size_t)n); pending.erase(0, (size_t)n); return n; }
+};
+struct Session { OneShotReader rd; bloc::Parser* p = nullptr; std::vector<const bloc::Statement*> kept; ~Session() { delete p; for (auto s : kept) delete s; } };
+
 static const char* MODS[] = {"vf", "vg", "csv"};
 
 struct C16 : Profile {
@@ -87,7 +94,9 @@ struct C16 : Profile {
     std::vector<std::string> ctxs = {"T", "U1", "U2"}; int nclone = 0;
     for (int i = 0; i < n; ++i) {
       std::string m = MODS[r.weighted({5, 3, 1})];
-      switch (r.weighted({3, 1.5, 0.7, 4, 1.2, 0.8, 5, 2, 2, 1, 1, 1.5, 1, 0.8, 1.2})) {
+      switch (r.weighted({3, 1.5, 0.7, 4, 1.2, 0.8, 5, 2, 2, 1, 1, 1.5, 1, 0.8, 1.2, 2.5, 1.2})) {
+      case 16: { std::string c0 = r.pick(ctxs); st.push_back(step(c0, "sess_open", m)); st.push_back(step("H", r.chance(0.5) ? "trust" : "untrust", c0)); if (r.chance(0.4)) st.push_back(step("H", r.chance(0.5) ? "grant" : "clear", m)); st.push_back(step(c0, r.pick(std::vector<std::string>{"sess_include", "sess_import_path", "sess_ctor"}), m)); break; }   // the parser outlives a change of the permissions
+      case 15: st.push_back(step(r.pick(ctxs), r.pick(std::vector<std::string>{"sess_open", "sess_include", "sess_import_path", "sess_ctor", "sess_include"}), m)); break;
       case 13: st.push_back(step("H", "purge", r.pick(ctxs))); break;
       case 14: st.push_back(step(r.pick(ctxs), "import_path_expr", m)); break;
       case 0: st.push_back(step("H", "grant", m)); break;
@@ -149,6 +158,19 @@ struct C16 : Profile {
       return o.ok();
     };
 
+    std::map<std::string, std::unique_ptr<Session>> sessions; std::string last_refusal;
+    // one statement through the context's long-lived parser; returns 1 accepted and run, 0 refused by the compiler, -1 not applicable
+    auto session_feed = [&](const std::string& who, const std::string& text, const std::string& what) -> int {
+      Ctx& c = cx[who]; auto& sp = sessions[who]; if (!sp) sp.reset(new Session());
+      if (!sp->p) { sp->p = bloc::Parser::createInteractiveParser(*c.ctx, sp->rd); if (!sp->p) return -1; ++res.probes["session_parsers_made"]; } else ++res.probes["session_parser_reused"];
+      sp->rd.pending = text; const bloc::Statement* stmt = nullptr; bool ok = false;
+      try { stmt = sp->p->parseStatement(); if (!stmt && !sp->rd.pending.empty()) stmt = sp->p->parseStatement();   /* the line end left over by the previous statement is reported first */ ok = stmt != nullptr; }
+      catch (bloc::ParseError& pe) { ev.add(std::string("session refusal: ") + pe.what()); last_refusal = pe.what(); delete sp->p; sp->p = nullptr; sp->rd.pending.clear(); }   // a fresh parser after a refusal
+      catch (std::exception& e) { fail("C16/foreign-exception", std::string(typeid(e).name()) + ": " + e.what()); delete sp->p; sp->p = nullptr; return -1; }
+      ev.add(who + ":session " + what + ":" + (ok ? "accepted" : "rejected"));
+      if (ok) { sp->kept.push_back(stmt); const bloc::Statement* n = stmt; StepGuard g(2000); try { while (n) n = n->execute(*c.ctx); } catch (bloc::RuntimeError&) { c.ctx->onRuntimeError(); } catch (std::exception& e) { fail("C16/foreign-exception", std::string(typeid(e).name()) + ": " + e.what()); } }
+      return ok ? 1 : 0;
+    };
     int ctor_untrusted = 0;
     for (auto& s : plan.value("steps", json::array())) {
       std::string a = s.value("a", ""), op = s.value("op", ""), arg = s.value("arg", "");
@@ -181,6 +203,17 @@ struct C16 : Profile {
         if (o.ok() && !cc.trusted) fail("C16/compile-accepted-although-restricted", a + " (untrusted): import by path expression '" + printable(buf, 100) + "'");
         if (o.ok()) { cc.exes.push_back(exe); L.insert(arg); }
         if (!cc.trusted) ++res.probes["path_expression_import_in_untrusted"];
+      } else if (op == "sess_open") {
+        session_feed(a, "sq9 = 1;\n", "plain statement");
+      } else if (op == "sess_include" || op == "sess_import_path" || op == "sess_ctor") {
+        // the permissions are those of the context at the moment of the statement, however long ago the parser was made
+        if (op == "sess_ctor" && arg == "csv") continue;
+        std::string text = op == "sess_include" ? "include \"" + incfile + "\";\n" : op == "sess_import_path" ? "import \"" + bindir() + "/libbloc_" + arg + ".so.2.9\";\n" : "so_" + arg + " = " + arg + "();\n";
+        bool expect = op == "sess_ctor" ? permitted(arg) : c.trusted;
+        if (op == "sess_ctor" && expect) c.legit.insert(arg);
+        int got = session_feed(a, text, op);
+        if (got >= 0 && (got == 1) != expect) fail(expect ? "C16/compile-refused-although-permitted" : "C16/compile-accepted-although-restricted", a + " (" + (c.trusted ? "trusted" : "untrusted") + "), long-lived parser: " + op + " '" + printable(text, 80) + "' (" + last_refusal + "); model: granted={" + join(G) + "} loaded={" + join(L) + "}");
+        if (got == 1 && op == "sess_import_path") L.insert(arg);
       } else if (op == "include") {
         compile_run(a, "include \"" + incfile + "\";\n", c.trusted, "include");
         if (!c.trusted) ++res.probes["include_in_untrusted"];
@@ -218,6 +251,7 @@ struct C16 : Profile {
       (void)ctor_untrusted;
     }
     // release everything, then the registry
+    sessions.clear();
     for (auto& kv : cx) { for (auto e : kv.second.exes) delete e; kv.second.exes.clear(); }
     for (auto& kv : cx) { delete kv.second.ctx; kv.second.ctx = nullptr; }
     for (auto& o : host.objects) if (o.destroyed != 1) fail("C16/object-not-destroyed-exactly-once", "object #" + std::to_string(o.oid));
